@@ -13,13 +13,16 @@ from .. import build, models
 
 
 class TokenStream:
-    def __init__(self, m, n, prefix="tok", fixed=()):
-        """n symbolic tokens after the concrete token kinds named in `fixed`."""
+    def __init__(self, m, n, prefix="tok", fixed=(), suffix=()):
+        """n symbolic tokens after the concrete token kinds named in `fixed` (and before those in `suffix`)."""
         self.m = m
         self.fixed = list(fixed)
+        self.suffix = list(suffix)
         self.prefix = prefix
         self.kinds = [bv64(m.vidx("TokenKind", k)) for k in self.fixed] + \
-                     [z3.BitVec("%s%d.kind" % (prefix, i + len(self.fixed)), 64) for i in range(n)]
+                     [z3.BitVec("%s%d.kind" % (prefix, i + len(self.fixed)), 64) for i in range(n)] + \
+                     [bv64(m.vidx("TokenKind", k)) for k in self.suffix]
+        self.sym = list(range(len(self.fixed), len(self.fixed) + n))
         self.n = len(self.kinds)
         self.EOF = m.vidx("TokenKind", "Eof")
         self.never = [m.vidx("TokenKind", k) for k in ("Eof", "WS", "Comment")]
@@ -27,7 +30,7 @@ class TokenStream:
 
     def constraints(self):
         cs = []
-        for k in self.kinds[len(self.fixed):]:
+        for k in [self.kinds[i] for i in self.sym]:
             cs.append(z3.ULT(k, bv64(self.nkinds)))
             for nv in self.never:
                 cs.append(k != bv64(nv))
@@ -85,8 +88,38 @@ class TokenStream:
             sn = Node(fresh_root("str"), ty="str")
             sn.fields = {"sid": mk_scalar(f(s, e), "u64")}
             return ctx.ret(mk_ref(sn, "&str"))
+        def m_next_if(ctx):
+            """Peekable::next_if(pred): consume and return the next token iff pred(&token)."""
+            from ..itermodels import decide
+            from ..models import closure_of, call_stash, finish_call
+            p = pos_of(ctx.st)
+            i = z3.simplify(p.term).as_long()
+            if i > ts.n:
+                return ctx.ret(none(ctx.dest_ty))
+            clos = closure_of(ctx.eng, ctx.args[1])
+            if clos is None:
+                return ctx.eng.uninterpreted(ctx.st, ctx.frame, ctx.dest, ctx.dest_ty, ctx.ret_bb, ctx.callee, ctx.norm,
+                                             ctx.args, ctx.site)
+            tok = ts.token(ctx.eng, i)
+            stash = call_stash(ctx, tok=tok, i=i)
+
+            def after(eng_, st2, sh, ret):
+                t = eng_.scalar(ret, "bool")
+
+                def yes(st3, pl):
+                    pp = pos_of(st3)
+                    pp.term = bv64(pl["i"] + 1)
+                    st3.extra.setdefault("consumed", []).append(pl["i"])
+                    st3.extra.setdefault("consumed_raw", []).append(pl["i"])
+                    return finish_call(eng_, st3, pl, models.mk_enum(eng_, "Option", "Some", [pl["tok"]], ty=pl["dest_ty"]))
+
+                def no(st3, pl):
+                    return finish_call(eng_, st3, pl, none(pl["dest_ty"]))
+                return decide(eng_, st2, t, sh, yes, no)
+            return ctx.eng.call_closure(ctx.st, clos, [mk_ref(tok)], stash, after)
         eng.models["<Peekable as Iterator>::next"] = m_next
         eng.models["Peekable::peek"] = m_peek
+        eng.models["Peekable::next_if"] = m_next_if
         eng.models["<str as Index>::index"] = m_text
         eng.models["core::str::<impl str>::len"] = lambda ctx: ctx.ret(mk_usize(z3.BitVec("input.len", 64)))
 
